@@ -244,6 +244,9 @@ def compare(c, m, r):
         if tag == 1:
             t1, tf, dt, pw, dtn = f
             margin = min(margin, abs(float(pw - 1)), abs(float(tf + eps - t1)))
+            # ... and a step that starts (numerically) on a breakpoint of the admissible-step profile
+            for tk, _hk in c["prof"]:
+                margin = min(margin, abs(float(tf - tk)))
         if tag in (4, 5):
             t1, lo, hi = f
             margin = min(margin, abs(float(hi - (t1 + eps))), abs(float(hi + eps - t1)))
